@@ -201,7 +201,7 @@ func GenC05(seed uint64, run int) *Trace {
 		}
 	}
 	n := r.Range(0, 8)
-	if r.Chance(1, 12000) {
+	if r.Chance(1, 6000) {
 		// a long session: more stored blocks than any batch or buffer size used internally (1000, 4096, 8192)
 		for i, m := 0, Pick(r, []int{1001, 4097, 4300, 8200}); i < m; i++ {
 			t.Ops = append(t.Ops, Op{Kind: "put", Blks: []BlkSpec{{Kind: "raw", Seed: uint64(1000 + i), Size: i % 3}}})
